@@ -32,6 +32,24 @@ CHECKS = {
         "lemmas sum_lin, sum_pos, exp>0 assumed; lognormal/schulz specified for relative widths and upper limit >= 1e-8 only",
    technique=TECH + "Python AST -> VCs over symbolic-length arrays -> z3 (quantifier-free lemma instances); differential replay grid on get_weights",
    design="DESIGN.md 6 C02"),
+ "C03": dict(engine="pyvc",
+   text="The weight builders are executed symbolically with 2-D arrays that have one concrete dimension (vp/pymat.py: 1-2 data points, "
+        "calculation grid of symbolic length): bin_edges (midpoints, rejects short/decreasing grids); pinhole_resolution: every weight is "
+        "[q' in (-2.5,+3) sigma window] (erf(z(edge j+1)) - erf(z(edge j))) divided by the column sum of those masses, masses >= 0 and > 0 "
+        "inside the window (erf monotone); _q_perp_weights: telescoping differences of sqrt(u)/w, >= 0, ends 0 and w when the edges cover "
+        "the window; slit_resolution rows for the perfect / length-only / width-only (normalised window masses) / both (average of 61 "
+        "shifted perpendicular rows) modes; Pinhole1D/Slit1D constructors hand the weight builder an increasing grid with |q| >= 0.02 "
+        "q_min, request theory at strictly positive q only, sigma >= 1e-8, same widths and window for extension and weights; "
+        "pinhole_extend_q / slit_extend_q span EVERY point's window (symbolic number of points); apply_resolution_matrix is the weighted "
+        "sum; 2-D ring weights >= 0.  'Sum to one / flat unchanged / scale and background linear' are instances of Lean lemmas "
+        "(lemmas/Sas.lean) whose hypotheses are those obligations.",
+   note="erf/exp/sqrt uninterpreted with instantiated monotonicity; reals; row/column independence (1-2 data points enumerated); "
+        "linear/geometric_extrapolation and the scalar/None width conventions only in the bounded sweep (5 grids x widths x slit modes x 4 "
+        "2-D accuracies); Pinhole2D index layout is C04; three recorded findings (Slit1D extension called with swapped extents, "
+        "O(1e-5) mass loss below the first bin, single point with zero width)",
+   technique=TECH + "Python AST symbolic execution with 2-D array model (one concrete dimension) -> elementwise VCs -> z3; sum laws as "
+             "Lean-checked lemmas; replay on the real resolution classes",
+   design="DESIGN.md 6 C03"),
  "C05": dict(engine="cvc+pyvc",
    text="qac_rotation/qac_apply and qabc_rotation/qabc_apply are executed symbolically from clang's AST of the generated kernel "
         "source (the macro-expanded kernel_iq.c of the current tree) and every matrix entry is proved equal to the corresponding "
